@@ -35,6 +35,9 @@ RULE = ("Buffer: every arrival order of serials 0..n-1 x every subset of drain p
 def cases(tier, seed):
     q = tier == "quick"
     nmax = 6 if q else 7
+    # one long run released at once (the first serial arrives last): no operation may depend on how many items are held back
+    for n in (3000, 20000) if q else (3000, 20000, 200000):
+        yield {"kind": "buffer-long", "n": n}
     for n in range(nmax + 1):
         for perm in itertools.permutations(range(n)):
             for mask in range(2 ** n):
@@ -115,6 +118,19 @@ def _run_buffer(case):
               {"waiting_for": 0, "len": 0}, {"waiting_for": b.waiting_for(), "len": len(b)})
     _feed_buffer(b, perm, drains)
     return ok("buffer/flush-then-reuse" if "flush_after" in case else "buffer/reorder", trivial=not perm)
+
+
+def _run_buffer_long(case):
+    n = case["n"]
+    b = call("buffer/construct", Buffer)[1]
+    for s_ in range(n - 1, 0, -1):
+        b(s_, s_)
+    check(len(b) == n - 1 and take(iter(b), 1) == [], "buffer/long-run", {"held": n - 1, "emitted": 0}, {"held": len(b)})
+    b(0, 0)
+    out = call("buffer/long-run", lambda: take(iter(b), n + 1))[1]
+    check(out == list(range(n)), "buffer/long-run", "all %d items in serial order" % n, {"emitted": len(out), "first": out[:3]})
+    check(len(b) == 0 and b.waiting_for() == n, "buffer/long-run", {"held": 0, "waiting_for": n}, {"held": len(b), "waiting_for": b.waiting_for()})
+    return ok("buffer/long-run")
 
 
 def _run_printbuffer(case):
@@ -199,7 +215,7 @@ def _run_circular(case):
     return ok("circular/wrap" if k > c else "circular/fill", trivial=k == 0)
 
 
-_RUN = {"buffer": _run_buffer, "printbuffer": _run_printbuffer, "circular": _run_circular}
+_RUN = {"buffer-long": _run_buffer_long, "buffer": _run_buffer, "printbuffer": _run_printbuffer, "circular": _run_circular}
 
 
 def run_case(case):
